@@ -239,6 +239,8 @@ def _pre_tree(B, root, k0, s0, k1, s1, k2, s2, pr):
             return False
     if not B["THREE"] and not (k2 == 0 and s2 == 0):
         return False
+    if B["THREE"] and not (s2 in (0, 2, 4) and pr in (0, 1, 3)):
+        return False       # third slot: half of the sub-patterns, three of the four (indent, eol) pairs (keeps a shard under its budget)
     return 0 <= root <= 2 and 0 <= pr <= 3
 
 
